@@ -302,16 +302,32 @@ package index
 //@   abstract ensures hasPrev == (rfind(bytes(rl), bytes(key)) > 0)
 //@   abstract ensures hasPrev ==> prev.Pos == rst(bytes(rl), rfind(bytes(rl), bytes(key)) - 1) && bytes(prev.Key) == rkey(bytes(rl), rfind(bytes(rl), bytes(key)) - 1) && keyof(prev.Block) == rblk(bytes(rl), rfind(bytes(rl), bytes(key)) - 1)
 
-//@ func (rl RecordList) ReadRecord(pos int) (rec Record)
-//@   abstract gap GAP-RL: the byte-level encoding implements the record view
-//@   requires rwf(bytes(rl)) && 0 <= ridx(bytes(rl), pos) && ridx(bytes(rl), pos) < rn(bytes(rl)) && rst(bytes(rl), ridx(bytes(rl), pos)) == pos
-//@   abstract ensures rec.Pos == pos && bytes(rec.Key) == rkey(bytes(rl), ridx(bytes(rl), pos)) && keyof(rec.Block) == rblk(bytes(rl), ridx(bytes(rl), pos))
+// ReadRecord is verified against its body at the byte level (prelude reclistbytes.smt2 gives the
+// byte-level meaning of the view; rbytes(B) is true of every B and only serves as a trigger).
+//@ func (rl RecordList) ReadRecord(pos int) (rec Record)  property C07 C08
+//@   requires rbytes(bytes(rl)) && rwf(bytes(rl)) && 0 <= ridx(bytes(rl), pos) && ridx(bytes(rl), pos) < rn(bytes(rl)) && rst(bytes(rl), ridx(bytes(rl), pos)) == pos
+//@   ensures @decodes rec.Pos == pos && bytes(rec.Key) == rkey(bytes(rl), ridx(bytes(rl), pos)) && keyof(rec.Block) == rblk(bytes(rl), ridx(bytes(rl), pos))
+//@   ensures @next-start pos + 13 + len(rec.Key) == rst(bytes(rl), ridx(bytes(rl), pos) + 1)
 
-//@ func EncodeKeyPosition(keyPos KeyPositionPair) (r []byte)
-//@   abstract gap GAP-RL: the byte-level encoding implements the record view
+// AddKeyPosition / EncodeKeyPosition are verified against their bodies at the byte level: the
+// writer's layout (8 bytes offset, 4 bytes size, 1 byte key length, key) is the one ReadRecord reads.
+//@ func AddKeyPosition(data []byte, keyPos KeyPositionPair) (r []byte)  property C07 C08
+//@   requires len(keyPos.Key) < 256
+//@   requires @key-not-in-data baseof(keyPos.Key) != baseof(data) || len(keyPos.Key) == 0
+//@   modifies elems(data)
+//@   ensures @in-place-or-new baseof(r) == baseof(data) || fresh(r)
+//@   ensures @length len(r) == len(data) + 13 + len(keyPos.Key)
+//@   ensures @keeps-data forall i int :: 0 <= i && i < len(data) ==> r[i] == data[i]
+//@   ensures @offset le64(bytes(r), len(data)) == keyPos.Block.Offset
+//@   ensures @size le32(bytes(r), len(data) + 8) == keyPos.Block.Size
+//@   ensures @keylen r[len(data) + 12] == len(keyPos.Key)
+//@   ensures @key forall j int :: len(data) + 13 <= j && j < len(r) ==> r[j] == keyPos.Key[j - len(data) - 13]
+
+//@ func EncodeKeyPosition(keyPos KeyPositionPair) (r []byte)  property C07 C08
 //@   requires len(keyPos.Key) < 256
 //@   fresh r
-//@   abstract ensures r != nil && rwf(bytes(r)) && rn(bytes(r)) == 1 && rkey(bytes(r), 0) == bytes(keyPos.Key) && rblk(bytes(r), 0) == keyof(keyPos.Block)
+//@   ensures @one-record r != nil && rbytes(bytes(r)) && rwf(bytes(r)) && rn(bytes(r)) == 1 && rblk(bytes(r), 0) == keyof(keyPos.Block)
+//@   ensures @one-record-key rbytes(bytes(r)) && rwf(bytes(r)) && rst(bytes(r), 0) == 0 && lcp(rkey(bytes(r), 0), bytes(keyPos.Key)) == len(keyPos.Key) && rkey(bytes(r), 0) == bytes(keyPos.Key)
 
 //@ func (rl RecordList) PutKeys(keys []KeyPositionPair, start int, end int) (r []byte)
 //@   define B() = bytes(rl)
